@@ -120,6 +120,11 @@ pub struct AdvState {
 }
 
 thread_local! {
+    /// the platform maps buffers in place (share returns an address of the caller's own memory,
+    /// as an identity-mapped kernel would) instead of bouncing them - for the next worlds
+    pub static INPLACE_MODE: std::cell::Cell<bool> = const { std::cell::Cell::new(false) };
+}
+thread_local! {
     /// (seed, p, scribble) for the next worlds created on this thread
     pub static ADV_MODE: std::cell::Cell<Option<(u64, f64, u8)>> = const { std::cell::Cell::new(None) };
 }
@@ -156,6 +161,9 @@ pub struct World {
     /// queue-level events are not recorded (quiescent-to-quiescent fast-forward)
     pub muted: bool,
     pub adv: Option<AdvState>,
+    /// buffers are shared in place (no bounce copy): the device's writes are visible to the driver
+    /// at once, and the driver's later writes to the device
+    pub inplace: bool,
 }
 
 impl World {
@@ -178,6 +186,7 @@ impl World {
             dma_leaked_host: Vec::new(),
             mmio_map: Vec::new(),
             muted: false,
+            inplace: INPLACE_MODE.with(|m| m.get()),
             adv: ADV_MODE.with(|a| a.get()).map(|(seed, p, scribble)| AdvState {
                 rng: <rand::rngs::SmallRng as rand::SeedableRng>::seed_from_u64(seed),
                 p,
@@ -252,7 +261,8 @@ impl World {
                     Dir::Both => true,
                 };
                 if ok {
-                    return Some(unsafe { (s.bounce.as_ptr() as *mut u8).add((pa - s.pa) as usize) });
+                    let base = if s.bounce.is_empty() { s.va as *mut u8 } else { s.bounce.as_ptr() as *mut u8 };
+                    return Some(unsafe { base.add((pa - s.pa) as usize) });
                 }
                 return None;
             }
@@ -1007,8 +1017,9 @@ unsafe impl Hal for LedgerHal {
             let va = buffer.as_ptr() as *mut u8 as usize;
             let len = buffer.len();
             let dir: Dir = direction.into();
-            let mut bounce = vec![0u8; len].into_boxed_slice();
-            if dir != Dir::FromDevice {
+            let inplace = w.inplace;
+            let mut bounce = vec![0u8; if inplace { 0 } else { len }].into_boxed_slice();
+            if dir != Dir::FromDevice && !inplace {
                 unsafe { std::ptr::copy_nonoverlapping(va as *const u8, bounce.as_mut_ptr(), len) };
             }
             let pa = w.next_share_pa;
@@ -1017,7 +1028,8 @@ unsafe impl Hal for LedgerHal {
             let is_buf = w.cur_bufs.iter().any(|(a, l)| *a == va && *l == len);
             let mut ev = json!({"e":"Share","pa":hex(pa),"va":hex(va as u64),"len":len,"dir":dir.name(),"ap":access_platform});
             if !is_buf && len % 16 == 0 && len > 0 {
-                let image: Vec<Value> = bounce.chunks(16).map(desc_json).collect();
+                let bytes: &[u8] = if inplace { unsafe { std::slice::from_raw_parts(va as *const u8, len) } } else { &bounce };
+                let image: Vec<Value> = bytes.chunks(16).map(desc_json).collect();
                 ev["image"] = Value::Array(image);
             }
             w.shares.insert(pa, ShareRec { pa, va, len, dir, ap: access_platform, bounce });
@@ -1040,7 +1052,7 @@ unsafe impl Hal for LedgerHal {
             if matches {
                 crate::alloc::shared_remove(paddr);
                 let s = w.shares.remove(&paddr).unwrap();
-                if dir != Dir::ToDevice {
+                if dir != Dir::ToDevice && !s.bounce.is_empty() {
                     unsafe { std::ptr::copy_nonoverlapping(s.bounce.as_ptr(), va as *mut u8, len) };
                 }
             }
